@@ -69,6 +69,7 @@ type ShTagOrder struct {
 	B    *string `cbor:"2,omitempty,keyasint" json:"b,omitempty"`
 	C    *[]byte `cbor:"3,keyasint,omitempty" json:"c,omitempty"`
 	D    *int64  `cbor:"4" json:"d"`
+	O    *int64  `cbor:"5" json:"omitempty"` // a mandatory member that happens to be *named* omitempty
 	ShInner2
 }
 
@@ -237,6 +238,7 @@ func runC15(r *Run, rng *Rng, thorough bool) {
 	if thorough {
 		reps = 3000
 	}
+	held := &heldOutputs{}
 	// (1) shapes x values x optional subsets
 	for si, mk := range shapeInstances() {
 		var probe []fieldRef
@@ -302,6 +304,7 @@ func runC15(r *Run, rng *Rng, thorough bool) {
 			if out2, _ := encoding.SerializeStructToCBOR(extEM, src); !bytes.Equal(out, out2) {
 				r.Fail("stable-order", "serialising twice gives different bytes")
 			}
+			held.add("SerializeStructToCBOR", out)
 			// populate a fresh struct: reproduces the value (including the all-empty struct)
 			dst := mk()
 			var perr2 error
@@ -326,6 +329,10 @@ func runC15(r *Run, rng *Rng, thorough bool) {
 			if p, _ := safely(func() { jout, jerr = encoding.SerializeStructToJSON(src) }); p || jerr != nil {
 				r.Fail("serialize-json", fmt.Sprintf("SerializeStructToJSON: panic=%v err=%v", p, jerr))
 				continue
+			}
+			held.add("SerializeStructToJSON", jout)
+			if why := held.check(); why != "" {
+				r.Fail("stable-order", why)
 			}
 			jt, jperr := parseJSONText(jout)
 			if jperr != nil || jt.Kind != jObj {
